@@ -62,7 +62,8 @@ fn some_index(r: &mut Rng, v: &MVal) -> i32 {
 fn gen_keypath(r: &mut Rng, v: &MVal) -> Vec<KP> {
     let mut path = vec![];
     let mut cur = v;
-    let depth = r.urange(0, 4);
+    // usually short; on a deep narrow document one path in four follows it most of the way down
+    let depth = if v.depth() > 10 && r.chance(1, 4) { r.urange(v.depth() / 2, v.depth() + 1) } else { r.urange(0, 4) };
     for _ in 0..depth {
         match cur {
             MVal::Arr(xs) if !xs.is_empty() => {
@@ -332,6 +333,13 @@ pub fn gen_op(r: &mut Rng, kind: &str, regs: &[MVal], cfg: &OpGenCfg) -> Op {
         "object_delete" | "object_pick" => {
             let v = if fail { pick_reg(r, regs, |v| !is_obj(v)) } else { pick_reg(r, regs, is_obj) };
             let mut keys: Vec<String> = (0..r.urange(0, 3)).map(|_| some_key(r, &regs[v], cfg.vals)).collect();
+            if r.chance(1, 25) {
+                // a long key list: every key of the document and as many that are not there
+                if let MVal::Obj(m) = &regs[v] {
+                    keys.extend(m.keys().take(300).cloned());
+                }
+                keys.extend((0..*r.pick(&[16usize, 17, 64, 255, 256, 257])).map(|i| format!("k{i:03}")));
+            }
             keys.sort();
             keys.dedup();
             if kind == "object_delete" {
@@ -341,12 +349,26 @@ pub fn gen_op(r: &mut Rng, kind: &str, regs: &[MVal], cfg: &OpGenCfg) -> Op {
             }
         }
         "strip_nulls" => Op::StripNulls { v: any(r) },
-        "build_array" => Op::BuildArray { items: (0..r.urange(0, 4)).map(|_| any(r)).collect() },
+        "build_array" => {
+            let mut items: Vec<usize> = (0..r.urange(0, 4)).map(|_| any(r)).collect();
+            // a wide call now and then (small registers only, so that the result stays small)
+            let small: Vec<usize> = (0..n).filter(|i| regs[*i].node_count() <= 50).collect();
+            if !small.is_empty() && r.chance(1, 25) {
+                let w = *r.pick(&[16usize, 17, 64, 255, 256, 257, 300]);
+                items = (0..w).map(|_| *r.pick(&small)).collect();
+            }
+            Op::BuildArray { items }
+        }
         "build_object" => {
             let mut keys: Vec<String> = (0..r.urange(0, 4)).map(|_| gen::gen_key(r, cfg.vals)).collect();
+            let small: Vec<usize> = (0..n).filter(|i| regs[*i].node_count() <= 50).collect();
+            let wide = !small.is_empty() && r.chance(1, 25);
+            if wide {
+                keys.extend((0..*r.pick(&[16usize, 17, 64, 255, 256, 257, 300])).map(|i| format!("k{i:03}")));
+            }
             keys.sort();
             keys.dedup();
-            Op::BuildObject { items: keys.into_iter().map(|k| (k, r.idx(n))).collect() }
+            Op::BuildObject { items: keys.into_iter().map(|k| (k, if wide { *r.pick(&small) } else { r.idx(n) })).collect() }
         }
         "array_distinct" => Op::ArrayDistinct { v: pick_reg(r, regs, is_arr) },
         "array_intersection" => Op::ArrayIntersection { a: pick_reg(r, regs, is_arr), b: pick_reg(r, regs, is_arr) },
